@@ -401,13 +401,13 @@ Qed.
 Ltac runfold := unfold half, two, one, zero; cbn [add sub mul div opp ofZ leb ltb eqb ROps fst snd].
 
 (* the position of a point in cell units, measured from the top / left edge of the mesh *)
-Definition urow (cg : @cellgeom ROps) (p : Rpt) : R := (g_top cg - fst p) / g_h cg.
-Definition ucol (cg : @cellgeom ROps) (p : Rpt) : R := (snd p - g_left cg) / g_w cg.
+Definition cu_row (cg : @cellgeom ROps) (p : Rpt) : R := (g_top cg - fst p) / g_h cg.
+Definition cu_col (cg : @cellgeom ROps) (p : Rpt) : R := (snd p - g_left cg) / g_w cg.
 
 Lemma cell_contains_iff (cg : @cellgeom ROps) r c (p : Rpt) : g_h cg > 0 -> g_w cg > 0 ->
-  (@cell_contains ROps cg r c p = true <-> Rfloor (urow cg p) = r /\ Rfloor (ucol cg p) = c).
+  (@cell_contains ROps cg r c p = true <-> Rfloor (cu_row cg p) = r /\ Rfloor (cu_col cg p) = c).
 Proof.
-  intros Hh Hw. unfold cell_contains, urow, ucol. runfold.
+  intros Hh Hw. unfold cell_contains, cu_row, cu_col. runfold.
   rewrite !andb_true_iff, !Rltb_true, !Rleb_true, <- !floor_between, !plus_IZR.
   assert (A : forall a b, b > 0 -> forall k, (k <= a / b <-> k * b <= a)).
   { intros a b Hb k. split; intros Hk.
@@ -421,19 +421,19 @@ Proof.
 Qed.
 
 Lemma pixel_rc_floor (g : @rmesh ROps) (p : Rpt) : ps0 g > 0 -> ps1 g > 0 ->
-  0 <= urow (@geom_of_mesh ROps g) p -> 0 <= ucol (@geom_of_mesh ROps g) p ->
-  @pixel_rc ROps g p = (Rfloor (urow (@geom_of_mesh ROps g) p), Rfloor (ucol (@geom_of_mesh ROps g) p)).
+  0 <= cu_row (@geom_of_mesh ROps g) p -> 0 <= cu_col (@geom_of_mesh ROps g) p ->
+  @pixel_rc ROps g p = (Rfloor (cu_row (@geom_of_mesh ROps g) p), Rfloor (cu_col (@geom_of_mesh ROps g) p)).
 Proof.
   intros H0 H1 Hu Hc. unfold pixel_rc, centres_scaled. cbv zeta. runfold. f_equal.
   - rewrite <- trunc_R_nonneg by assumption. f_equal.
-    unfold urow, geom_of_mesh. cbn [g_top g_h]. runfold. rewrite minus_IZR. cbn [T ROps] in *. field. lra.
+    unfold cu_row, geom_of_mesh. cbn [g_top g_h]. runfold. rewrite minus_IZR. cbn [T ROps] in *. field. lra.
   - rewrite <- trunc_R_nonneg by assumption. f_equal.
-    unfold ucol, geom_of_mesh. cbn [g_left g_w]. runfold. rewrite minus_IZR. cbn [T ROps] in *. field. lra.
+    unfold cu_col, geom_of_mesh. cbn [g_left g_w]. runfold. rewrite minus_IZR. cbn [T ROps] in *. field. lra.
 Qed.
 
 (* for a point not above / left of the mesh, the code's (row, column) is the unique cell containing it *)
 Theorem pixel_rc_cell (g : @rmesh ROps) (p : Rpt) r c : ps0 g > 0 -> ps1 g > 0 ->
-  0 <= urow (@geom_of_mesh ROps g) p -> 0 <= ucol (@geom_of_mesh ROps g) p ->
+  0 <= cu_row (@geom_of_mesh ROps g) p -> 0 <= cu_col (@geom_of_mesh ROps g) p ->
   (@cell_contains ROps (@geom_of_mesh ROps g) r c p = true <-> @pixel_rc ROps g p = (r, c)).
 Proof.
   intros H0 H1 Hu Hc. rewrite pixel_rc_floor by assumption.
@@ -497,9 +497,9 @@ Section Overlay.
     split; apply Rdiv_lt_0_compat; cbn [T ROps] in *; lra.
   Qed.
   (* every point of the grid lies strictly inside the mesh: 0 < u < n in cell units on both axes *)
-  Lemma overlay_inside p : In p grid -> 0 < urow cg p < IZR n0 /\ 0 < ucol cg p < IZR n1.
+  Lemma overlay_inside p : In p grid -> 0 < cu_row cg p < IZR n0 /\ 0 < cu_col cg p < IZR n1.
   Proof.
-    intros Hp. destruct (extent_pos p Hp) as [Hh Hw]. unfold urow, ucol.
+    intros Hp. destruct (extent_pos p Hp) as [Hh Hw]. unfold cu_row, cu_col.
     pose proof (minL_le (map fst grid) (fst p) (in_map fst _ _ Hp)).
     pose proof (maxL_ge (map fst grid) (fst p) (in_map fst _ _ Hp)).
     pose proof (minL_le (map snd grid) (snd p) (in_map snd _ _ Hp)).
@@ -534,7 +534,7 @@ Section Overlay.
     intros Hp. cbv zeta. destruct (extent_pos p Hp) as [Hh Hw]. destruct (overlay_inside p Hp) as [Hu Hc].
     assert (G0 : ps0 g > 0) by (change (ps0 g) with (g_h (@geom_of_mesh ROps g)); rewrite overlay_geom; exact Hh).
     assert (G1 : ps1 g > 0) by (change (ps1 g) with (g_w (@geom_of_mesh ROps g)); rewrite overlay_geom; exact Hw).
-    assert (E : @pixel_rc ROps g p = (Rfloor (urow cg p), Rfloor (ucol cg p))).
+    assert (E : @pixel_rc ROps g p = (Rfloor (cu_row cg p), Rfloor (cu_col cg p))).
     { rewrite pixel_rc_floor; rewrite ?overlay_geom; auto; lra. }
     unfold pixel_index. rewrite E. cbn [fst snd].
     split; [apply floor_range; assumption|]. split; [apply floor_range; assumption|]. split; [reflexivity|].
@@ -618,3 +618,278 @@ Section RectMapper.
       apply rect_listed; auto. rewrite Hgrid. apply (in_block_lt subs i); auto. lia.
   Qed.
 End RectMapper.
+
+(* ------------------------------------------------------------------ E. the unique (sparse) encoding *)
+Lemma nth_repeat_any {A} (x : A) n k : nth k (repeat x n) x = x.
+Proof. revert k; induction n as [|n IH]; intros [|k]; cbn; auto. Qed.
+Lemma maxN_fold l : forall a, (a <= fold_left Nat.max l a)%nat /\ forall x, In x l -> (x <= fold_left Nat.max l a)%nat.
+Proof.
+  induction l as [|y l IH]; intros a; cbn [fold_left]; [split; [lia | intros x []]|].
+  destruct (IH (Nat.max a y)) as [A B]. split; [lia|]. intros x [<-|Hx]; [lia | auto].
+Qed.
+Lemma maxN_ge l x : In x l -> (x <= maxN l)%nat.
+Proof. apply maxN_fold. Qed.
+Lemma nth_le_maxN l k : (nth k l 0 <= maxN l)%nat.
+Proof.
+  destruct (lt_dec k (length l)) as [H|H]; [apply maxN_ge, nth_In; exact H|].
+  rewrite nth_overflow by lia. lia.
+Qed.
+
+Section UniqueRow.
+  Variables (P width : nat) (frac : R).
+  Notation ust := (@ustate ROps).
+  Definition pc (st : ust) (j : nat) : Z := nth j (pix_check st) (-1)%Z.
+  Definition uk (st : ust) (k : nat) : Z := nth k (urow st) (-1)%Z.
+  Definition wk (st : ust) (k : nat) : R := nth k (wrow st) 0.
+  Definition wof (st : ust) (p : nat) : R := if (pc st p >? -1)%Z then wk st (Z.to_nat (pc st p)) else 0.
+  Definition done_sum (done : list (Z * R)) (p : nat) : R :=
+    sumR (map (fun e => if Z.eqb (fst e) (Z.of_nat p) then frac * snd e else 0) done).
+
+  Record inv (st : ust) (done : list (Z * R)) : Prop := {
+    i_len_pc : length (pix_check st) = P;
+    i_len_u : length (urow st) = width;
+    i_len_w : length (wrow st) = width;
+    i_size : (psize st <= length done)%nat;
+    i_pc : forall j, (j < P)%nat -> pc st j = (-1)%Z \/
+             ((0 <= pc st j < Z.of_nat (psize st))%Z /\ uk st (Z.to_nat (pc st j)) = Z.of_nat j);
+    i_u : forall k, (k < psize st)%nat -> (0 <= uk st k < Z.of_nat P)%Z /\ pc st (Z.to_nat (uk st k)) = Z.of_nat k;
+    i_pad : forall k, (psize st <= k)%nat -> uk st k = (-1)%Z /\ wk st k = 0;
+    i_w : forall p, (p < P)%nat -> wof st p = done_sum done p }.
+
+  Lemma done_sum_app done e p : done_sum (done ++ [e]) p =
+    done_sum done p + (if Z.eqb (fst e) (Z.of_nat p) then frac * snd e else 0).
+  Proof. unfold done_sum. rewrite map_app, sumR_app. cbn. lra. Qed.
+
+  Lemma inv_init : inv {| pix_check := repeat (-1)%Z P; urow := repeat (-1)%Z width; wrow := @zeros ROps width; psize := 0 |} [].
+  Proof.
+    constructor; cbn [pix_check urow wrow psize]; try apply repeat_length; auto.
+    - intros j _. left. unfold pc. cbn [pix_check]. apply nth_repeat_any.
+    - intros k Hk. lia.
+    - intros k _. unfold uk, wk. cbn [urow wrow]. split; [apply nth_repeat_any | apply nth_zeros_R].
+    - intros p _. unfold wof, pc. cbn [pix_check]. rewrite nth_repeat_any. reflexivity.
+  Qed.
+
+  Lemma ustep_inv st done pix w : inv st done -> (0 <= pix < Z.of_nat P)%Z -> (length done < width)%nat ->
+    exists st', @ustep ROps frac P (Ok st) (pix, w) = Ok st' /\ inv st' (done ++ [(pix, w)]).
+  Proof.
+    intros [L1 L2 L3 Sz Ipc Iu Ipad Iw] Hpix Hlen.
+    unfold ustep. cbn [fst snd]. rewrite np_index_in_range by exact Hpix.
+    set (j := Z.to_nat pix). assert (Hj : (j < P)%nat) by (unfold j; lia).
+    assert (Ej : Z.of_nat j = pix) by (unfold j; lia).
+    change (nth j (pix_check st) (-1)%Z) with (pc st j).
+    destruct (Z.gtb_spec (pc st j) (-1)) as [Hc|Hc].
+    - (* already seen: accumulate *)
+      destruct (Ipc j Hj) as [E|[Hr Hu]]; [lia|].
+      set (c := Z.to_nat (pc st j)) in *. assert (Hcw : (c < width)%nat) by (unfold c; lia).
+      eexists. split; [reflexivity|].
+      constructor; cbn [pix_check urow wrow psize]; auto.
+      + rewrite (@upd_add_length ROps). exact L3.
+      + rewrite app_length. cbn. lia.
+      + intros k Hk. destruct (Ipad k Hk) as [A B]. split; [exact A|].
+        unfold wk in *. cbn [wrow]. cbn [T ROps] in *. rewrite nth_upd_add by nlia. rewrite B.
+        destruct (Nat.eqb_spec c k); [lia | lra].
+      + intros p Hp. rewrite done_sum_app. cbn [fst snd]. rewrite <- Iw by exact Hp.
+        unfold wof, wk, pc in *. cbn [pix_check wrow]. cbn [T ROps] in *.
+        destruct (Z.gtb_spec (nth p (pix_check st) (-1)%Z) (-1)) as [Hcp|Hcp].
+        * rewrite nth_upd_add by nlia.
+          destruct (Ipc p Hp) as [E|[Hr' Hu']]; [unfold pc in E; lia|]. unfold pc, uk in *.
+          destruct (Nat.eqb_spec c (Z.to_nat (nth p (pix_check st) (-1)%Z))) as [Q|Q].
+          -- assert (p = j). { rewrite <- Q in Hu'. rewrite Hu in Hu'. lia. }
+             subst p. rewrite Ej, Z.eqb_refl. cbn [mul ROps]. lra.
+          -- destruct (Z.eqb_spec pix (Z.of_nat p)) as [Q'|Q']; [|lra].
+             exfalso. apply Q. assert (p = j) by lia. subst p. reflexivity.
+        * destruct (Z.eqb_spec pix (Z.of_nat p)) as [Q'|Q']; [|lra].
+          exfalso. assert (p = j) by lia. subst p. unfold pc in Hc. lia.
+    - (* first time: new slot *)
+      destruct (Ipc j Hj) as [E|[Hr Hu]]; [|lia].
+      set (n := psize st) in *. assert (Hn : (n < width)%nat) by lia.
+      eexists. split; [reflexivity|].
+      constructor; cbn [pix_check urow wrow psize]; auto.
+      + rewrite upd_set_length. exact L1.
+      + rewrite upd_set_length. exact L2.
+      + rewrite (@upd_add_length ROps). exact L3.
+      + rewrite app_length. cbn. lia.
+      + intros j' Hj'. unfold pc, uk. cbn [pix_check urow]. rewrite nth_upd_set by lia.
+        destruct (Nat.eqb_spec j j') as [Q|Q].
+        * subst j'. right. split; [lia|]. rewrite Nat2Z.id. rewrite nth_upd_set by lia. rewrite Nat.eqb_refl. lia.
+        * destruct (Ipc j' Hj') as [E'|[Hr' Hu']]; [left; exact E'|]. right. split; [unfold pc in *; lia|].
+          unfold pc, uk in *. rewrite nth_upd_set by lia.
+          destruct (Nat.eqb_spec n (Z.to_nat (nth j' (pix_check st) (-1)%Z))); [lia | exact Hu'].
+      + intros k Hk. unfold pc, uk. cbn [pix_check urow]. rewrite (nth_upd_set (urow st)) by lia.
+        destruct (Nat.eqb_spec n k) as [Q|Q].
+        * subst k. split; [lia|]. fold j. rewrite nth_upd_set by lia. rewrite Nat.eqb_refl. reflexivity.
+        * destruct (Iu k ltac:(lia)) as [A B]. unfold uk, pc in A, B. split; [exact A|].
+          rewrite nth_upd_set by lia.
+          destruct (Nat.eqb_spec j (Z.to_nat (nth k (urow st) (-1)%Z))) as [Q'|Q']; [|exact B].
+          exfalso. rewrite <- Q' in B. unfold pc in E. lia.
+      + intros k Hk. destruct (Ipad k ltac:(lia)) as [A B]. unfold uk, wk in *. cbn [urow wrow]. cbn [T ROps] in *.
+        rewrite nth_upd_set by lia. rewrite nth_upd_add by nlia.
+        destruct (Nat.eqb_spec n k); [lia|]. split; [exact A | lra].
+      + intros p Hp. rewrite done_sum_app. cbn [fst snd]. rewrite <- Iw by exact Hp.
+        unfold wof, wk, pc in *. cbn [pix_check wrow]. cbn [T ROps] in *. rewrite nth_upd_set by lia.
+        destruct (Nat.eqb_spec j p) as [Q|Q].
+        * subst p. rewrite Ej, Z.eqb_refl.
+          destruct (Z.gtb_spec (Z.of_nat n) (-1)); [|lia]. rewrite Nat2Z.id, nth_upd_add by nlia. rewrite Nat.eqb_refl.
+          destruct (Ipad n ltac:(lia)) as [_ B]. unfold wk in B. rewrite B.
+          destruct (Z.gtb_spec (nth j (pix_check st) (-1)%Z) (-1)); [lia|]. cbn [mul ROps]. lra.
+        * destruct (Z.eqb_spec pix (Z.of_nat p)) as [Q'|Q']; [exfalso; lia|].
+          destruct (Z.gtb_spec (nth p (pix_check st) (-1)%Z) (-1)) as [Hcp|Hcp]; [|lra].
+          rewrite nth_upd_add by nlia.
+          destruct (Ipc p Hp) as [E'|[Hr' Hu']]; [unfold pc in E'; lia|]. unfold pc in Hr'.
+          destruct (Nat.eqb_spec n (Z.to_nat (nth p (pix_check st) (-1)%Z))); [lia | lra].
+  Qed.
+
+  Lemma ufold_inv es : forall st done, inv st done -> Forall (fun e => (0 <= fst e < Z.of_nat P)%Z) es ->
+    (length done + length es <= width)%nat ->
+    exists st', fold_left (@ustep ROps frac P) es (Ok st) = Ok st' /\ inv st' (done ++ es).
+  Proof.
+    induction es as [|[pix w] es IH]; intros st done HI HF HL.
+    - exists st. rewrite app_nil_r. auto.
+    - inversion HF as [|? ? Hp HF']; subst. cbn [fst] in Hp. cbn [length] in HL.
+      destruct (ustep_inv st done pix w HI Hp ltac:(lia)) as [st1 [E1 I1]].
+      destruct (IH st1 (done ++ [(pix, w)]) I1 HF') as [st2 [E2 I2]]; [rewrite app_length; cbn [length]; nlia|].
+      exists st2. cbn [fold_left]. rewrite E1, E2. rewrite <- app_assoc in I2. auto.
+  Qed.
+
+  (* what the invariant says about the finished row *)
+  Lemma inv_row_sum st done p : inv st done -> (p < P)%nat ->
+    sumR (map (fun k => if Z.eqb (uk st k) (Z.of_nat p) then wk st k else 0) (seq 0 (psize st))) = done_sum done p.
+  Proof.
+    intros [L1 L2 L3 Sz Ipc Iu Ipad Iw] Hp. rewrite <- Iw by exact Hp. unfold wof.
+    destruct (Z.gtb_spec (pc st p) (-1)) as [Hc|Hc].
+    - destruct (Ipc p Hp) as [E|[Hr Hu]]; [lia|]. set (c := Z.to_nat (pc st p)) in *.
+      rewrite <- (sumR_seq_pick (psize st) c (wk st c)) by (unfold c; lia).
+      apply sumR_map_ext. intros k Hk. apply in_seq in Hk.
+      destruct (Z.eqb_spec (uk st k) (Z.of_nat p)) as [Q|Q].
+      + destruct (Iu k ltac:(lia)) as [_ B]. rewrite Q, Nat2Z.id in B.
+        assert (c = k) by (unfold c; lia). subst k. rewrite Nat.eqb_refl. reflexivity.
+      + destruct (Nat.eqb_spec c k) as [Q'|Q']; [|reflexivity]. subst k. contradiction.
+    - apply sumR_map_zero. intros k Hk. apply in_seq in Hk.
+      destruct (Z.eqb_spec (uk st k) (Z.of_nat p)) as [Q|Q]; [|reflexivity].
+      destruct (Iu k ltac:(lia)) as [_ B]. rewrite Q, Nat2Z.id in B. lia.
+  Qed.
+  Lemma inv_row_inj st done k k' : inv st done -> (k < psize st)%nat -> (k' < psize st)%nat -> uk st k = uk st k' -> k = k'.
+  Proof.
+    intros [L1 L2 L3 Sz Ipc Iu Ipad Iw] Hk Hk' E.
+    destruct (Iu k Hk) as [_ B]. destruct (Iu k' Hk') as [_ B']. rewrite E in B. lia.
+  Qed.
+End UniqueRow.
+
+Lemma offset_S subs i : (i < length subs)%nat -> offset subs (S i) = (offset subs i + sq_n (nth i subs 0))%nat.
+Proof.
+  revert i; induction subs as [|s0 t IH]; intros i Hi; cbn [length] in Hi; [lia|].
+  destruct i as [|i]; [cbn [offset nth]; destruct t; cbn [offset]; lia|].
+  cbn [offset nth]. rewrite IH by lia. cbn [offset]. lia.
+Qed.
+
+Lemma nth_firstn_lt {A} (l : list A) n k d : (k < n)%nat -> nth k (firstn n l) d = nth k l d.
+Proof. revert n k; induction l as [|a l IH]; intros [|n] [|k] H; cbn; auto; try lia. apply IH. lia. Qed.
+Lemma offset_0 subs : offset subs 0 = 0%nat.
+Proof. destruct subs; reflexivity. Qed.
+
+Section UniqueAll.
+  Variables (m : mask) (subs : list nat) (P : nat) (mp : list (list Z)) (sz : list nat) (wt : Rmat).
+  Hypothesis HM : mapper_ok m subs P mp sz.
+  Let width := (maxN sz * sq_n (maxN subs))%nat.
+
+  Lemma sub_entries_valid start n : (start + n <= total_sub subs)%nat ->
+    Forall (fun e => (0 <= fst e < Z.of_nat P)%Z) (@sub_entries ROps mp sz wt start n).
+  Proof.
+    intros H. apply Forall_forall. intros e He. unfold sub_entries in He.
+    apply in_flat_map in He. destruct He as [s [Hs He]]. apply in_seq in Hs.
+    apply in_map_iff in He. destruct He as [k [<- Hk]]. apply in_seq in Hk. cbn [fst].
+    apply (mo_idx _ _ _ _ _ HM); lia.
+  Qed.
+  Lemma sub_entries_length start n : (length (@sub_entries ROps mp sz wt start n) <= n * maxN sz)%nat.
+  Proof.
+    unfold sub_entries. revert start; induction n as [|n IH]; intros start; cbn [seq flat_map length]; [lia|].
+    rewrite app_length, map_length, seq_length. specialize (IH (S start)). pose proof (nth_le_maxN sz start). lia.
+  Qed.
+  Lemma sub_entries_sum frac start n p :
+    done_sum frac (@sub_entries ROps mp sz wt start n) p =
+    sumR (map (fun s => frac * listed_weight mp sz wt s p) (seq start n)).
+  Proof.
+    unfold done_sum, sub_entries. rewrite sumR_flat_map. apply sumR_map_ext. intros s _.
+    rewrite map_map. unfold listed_weight. rewrite <- sumR_map_scal. apply sumR_map_ext. intros k _. cbn [fst snd]. change (@zero ROps) with 0.
+    destruct (Z.eqb _ _); nlra.
+  Qed.
+
+  (* one finished row of the sparse encoding, for data pixel i *)
+  Definition row_ok (i : nat) (row : list Z * list R * nat) : Prop :=
+    let '(u, w, n) := row in
+    (n <= width)%nat /\ length u = width /\ length w = width
+    /\ (forall k k', (k < n)%nat -> (k' < n)%nat -> nth k u (-1)%Z = nth k' u (-1)%Z -> k = k')
+    /\ (forall k, (k < n)%nat -> (0 <= nth k u (-1) < Z.of_nat P)%Z)
+    /\ (forall k, (n <= k)%nat -> nth k u (-1)%Z = (-1)%Z /\ nth k w 0 = 0)
+    /\ (forall p, (p < P)%nat ->
+          sumR (map (fun k => if Z.eqb (nth k u (-1)%Z) (Z.of_nat p) then nth k w 0 else 0) (seq 0 n))
+          = sumR (map (fun s => 1 / INR (sq_n (nth i subs 0%nat)) * listed_weight mp sz wt s p) (block subs i))).
+
+  Lemma uq_rows_ok : forall suf pre, subs = pre ++ suf ->
+    exists rows, @uq_rows ROps mp sz wt P width suf (offset subs (length pre)) = Ok rows /\ length rows = length suf /\
+                 forall i', (i' < length suf)%nat -> row_ok (length pre + i') (nth i' rows ([], [], 0%nat)).
+  Proof.
+    induction suf as [|sub suf IH]; intros pre Hsplit.
+    - exists []. cbn. repeat split; auto. intros i' Hi'. lia.
+    - cbn [uq_rows].
+      assert (Hi : (length pre < length subs)%nat) by (rewrite Hsplit, app_length; cbn; lia).
+      assert (Hsub : nth (length pre) subs 0%nat = sub) by (rewrite Hsplit, app_nth2, Nat.sub_diag by lia; reflexivity).
+      assert (Hoff : (offset subs (length pre) + sq_n sub <= total_sub subs)%nat).
+      { rewrite <- Hsub. apply (offset_mono subs (length pre) (length subs)); lia. }
+      set (frac := div ROps one (@ofNat ROps (sq_n sub))).
+      set (es := @sub_entries ROps mp sz wt (offset subs (length pre)) (sq_n sub)).
+      assert (Hw : (length es <= width)%nat).
+      { unfold es, width. pose proof (sub_entries_length (offset subs (length pre)) (sq_n sub)).
+        assert (sub <= maxN subs)%nat by (rewrite <- Hsub; apply nth_le_maxN).
+        assert (sq_n sub <= sq_n (maxN subs))%nat by (unfold sq_n; nia). nia. }
+      destruct (ufold_inv P width frac es _ [] (inv_init P width frac)) as [st [Est Ist]].
+      { apply sub_entries_valid. exact Hoff. }
+      { cbn [length]. lia. }
+      rewrite Est. cbn [app] in Ist.
+      destruct (IH (pre ++ [sub])) as [rows [Er [Lr Hr]]]; [rewrite <- app_assoc; exact Hsplit|].
+      rewrite app_length in Er. cbn [length] in Er. rewrite Nat.add_1_r, offset_S, Hsub in Er by exact Hi.
+      rewrite Er. eexists. split; [reflexivity|]. split; [cbn [length]; lia|].
+      intros [|i'] Hi'.
+      + cbn [nth]. rewrite Nat.add_0_r. unfold row_ok.
+        pose proof Ist as [L1 L2 L3 Sz Ipc Iu Ipad Iw].
+        split; [nlia|]. split; [exact L2|]. split; [exact L3|]. split.
+        { intros k k' Hk Hk' E. apply (inv_row_inj P width frac st es k k' Ist Hk Hk' E). }
+        split. { intros k Hk. apply Iu. exact Hk. }
+        split. { intros k Hk. apply Ipad. exact Hk. }
+        intros p Hp. pose proof (inv_row_sum P width frac st es p Ist Hp) as E. unfold uk, wk in E.
+        cbn [T ROps] in *. rewrite E. unfold es. rewrite sub_entries_sum. unfold block. rewrite Hsub.
+        apply sumR_map_ext. intros s _. f_equal. unfold frac, one, ofNat. cbn [div ofZ ROps].
+        rewrite <- INR_IZR_INZ. reflexivity.
+      + cbn [nth]. cbn [length] in Hi'. specialize (Hr i' ltac:(lia)).
+        rewrite app_length in Hr. cbn [length] in Hr. replace (length pre + S i')%nat with (length pre + 1 + i')%nat by lia.
+        exact Hr.
+  Qed.
+
+  (* the sparse triple encodes exactly the dense matrix *)
+  Theorem unique_encodes_dense M :
+    @mapping_matrix ROps mp sz wt P (count_unmasked m) (slim_for_sub m subs) (@sub_fractions ROps subs) = Ok M ->
+    exists rows, @unique_from ROps mp sz wt P subs = Ok rows /\ length rows = count_unmasked m /\
+      forall i, (i < count_unmasked m)%nat ->
+        let '(u, w, n) := nth i rows ([], [], 0%nat) in
+        (n <= length u)%nat /\ length w = length u
+        /\ NoDup (firstn n u)
+        /\ (forall k, (k < n)%nat -> (0 <= nth k u (-1) < Z.of_nat P)%Z)
+        /\ (forall k, (n <= k)%nat -> nth k u (-1)%Z = (-1)%Z /\ nth k w 0 = 0)
+        /\ (forall p, (p < P)%nat ->
+              sumR (map (fun k => if Z.eqb (nth k u (-1)%Z) (Z.of_nat p) then nth k w 0 else 0) (seq 0 n)) = mgetR M i p).
+  Proof.
+    intros EM. destruct (uq_rows_ok subs [] eq_refl) as [rows [Er [Lr Hr]]]. cbn [length offset] in Er.
+    rewrite offset_0 in Er.
+    exists rows. split; [exact Er|]. pose proof (mo_len _ _ _ _ _ HM) as HL. split; [lia|].
+    intros i Hi. specialize (Hr i ltac:(lia)). cbn [length plus] in Hr.
+    destruct (nth i rows ([], [], 0%nat)) as [[u w] n]. unfold row_ok in Hr.
+    destruct Hr as [A [B [C [D [E [F G]]]]]].
+    split; [nlia|]. split; [nlia|]. split.
+    { apply (NoDup_nth _ (-1)%Z). intros k k' Hk Hk' Heq. rewrite firstn_length in Hk, Hk'.
+      rewrite !nth_firstn_lt in Heq by lia. apply D; auto; lia. }
+    split; [exact E|]. split; [exact F|].
+    intros p Hp. rewrite G by exact Hp.
+    destruct (entry_block_formula m subs P mp sz wt HM) as [M' [E' [_ HE]]]. rewrite EM in E'. injection E' as <-.
+    symmetry. apply HE; auto.
+  Qed.
+End UniqueAll.
